@@ -21,6 +21,9 @@ ASet(s) == {s[i] : i \in DOMAIN s}
 
 Mods(e) == e.mods
 AllUnresolved(e) == UNION {O!Unresolved(Mods(e), Mods(e)[f]) : f \in DOMAIN Mods(e)}
+\* a declaration the parser could not read cannot be shown to be closed: its references are unknown
+AllUnparsable(e) == UNION {{<<f, Mods(e)[f].decls[i].name>> : i \in {j \in DOMAIN Mods(e)[f].decls : Mods(e)[f].decls[j].kind = "unparsable"}}
+                           : f \in DOMAIN Mods(e)}
 AllDup(e) == UNION {{<<f, n>> : n \in O!DuplicateExports(Mods(e)[f])} : f \in DOMAIN Mods(e)}
 
 ListenersOk(e) ==
@@ -39,6 +42,7 @@ Judge(e) ==
     CASE e.event = "Discovery" -> P!C03_Holds(e.files, e.wrappers)
       [] e.event = "Reach"     -> P!C07_Holds(e.types, e.roots, e.declared)
       [] e.event = "Modules"   -> /\ AllUnresolved(e) = {}
+                                  /\ AllUnparsable(e) = {}
                                   /\ AllDup(e) = {}
                                   /\ O!IndexMatches(e.reexports, e.written)
       [] e.event = "Order"     -> O!DefinedBeforeUse(e.module)
@@ -57,7 +61,7 @@ Why(e) ==
               "declarations", Len(e.declared), "distinct", Cardinality(ASet(e.declared))>>
       [] e.event = "Modules" ->
             <<"unresolved", AllUnresolved(e), "duplicates", AllDup(e),
-              "index", ASet(e.reexports), "written", ASet(e.written)>>
+              "index", ASet(e.reexports), "written", ASet(e.written), "unparsable", AllUnparsable(e)>>
       [] e.event = "Order" -> <<"read before definition", O!EarlyReads(e.module)>>
       [] e.event = "Listeners" ->
             <<"required", P!EventNames(e.emits), "subscribed", {e.listeners[i].subscribed : i \in DOMAIN e.listeners},
